@@ -17,6 +17,8 @@ def run(tier, seed):
     add_cons(rep, "C02")
     from .c17 import add_list
     add_list(rep, "C02")
+    from .c17 import add_refdef
+    add_refdef(rep, "C02")
     import contracts.textjoin as TJ
     deductive(rep, "C02", TJ.FUNCS, "contracts.textjoin")
     import contracts.delims as DL
